@@ -376,6 +376,9 @@ func runProtocol(kc *kernelCtx, blocks []*Block, only string, want map[string]bo
 		pc.p2BareReceive(only)
 	}
 	pc.t1Promoted(only)
+	if on("C13") || on("C05") {
+		pc.p7Helpers(only)
+	}
 	if on("C03") || on("C14") || on("C16") {
 		pc.p2StopChannels(only)
 	}
